@@ -86,8 +86,11 @@ def run(ctx):
     hdrs = header_defs()
     supported = {True: 0, False: 0}
     dropped = 0
-    for s in range(nsets):
-        defs = defgen.gen_set(rng, per, start_serial=s * per)
+    for s in range(-1, nsets):
+        if s == -1:
+            defs = defgen.crafted_header_flex()          # a small set of its own (unique API keys per set)
+        else:
+            defs = defgen.gen_set(rng, per, start_serial=s * per)
         if s == 0:
             defs = defgen.crafted() + defs
         # the property speaks about well-formed definitions: a drawn definition on which the *model* of
